@@ -563,6 +563,25 @@ def _run_property(pid, tier, seed, logdir):
                     return dict(name=name, engine="mirsym", functions=[], bounds=bounds, oracle=oracle, stubs=[], tier=tier, verdict="inconclusive",
                                 reason=f"outside the encoder's subset: {e}", queries=0, solver_time_s=0, failed=[])
             jobs.append(("c20_listing_hostname_%d_chars" % nch, job))
+        from mirsym import props_listing
+        for nrows in ([2] if tier == "quick" else [1, 2, 3]):
+            def ljob(nrows=nrows):
+                t0 = time.time()
+                name = "c20_listing_entries_table_of_%d_rows_or_fewer" % nrows
+                bounds = "Pool::get_leases (prepare_cached, query_map, the row-mapping closure, collect) from MIR on every lease table of <= %d rows the invariant admits; every column symbolic; the options column NULL or not" % nrows
+                oracle = "Ok(list) with exactly one entry per stored row carrying that row's address, client identifier, start and expiry; never Err, never a panic"
+                try:
+                    failed, ex, npaths, kinds = props_listing.obligation(prog, en, nrows)
+                    for f in failed:
+                        f["check"] = name
+                    return dict(name=name, engine="mirsym", functions=sorted(f.split("::")[-1] for f in ex.encoded_fns), bounds=bounds, oracle=oracle,
+                                stubs=common_stubs + ["prepare_cached / query_map = the plain SELECT found at the call site evaluated over the symbolic table (rows in table order); Row::get typed as rusqlite: NULL is not a BLOB, NULL is None for Option"] + sorted(ex.used_summaries),
+                                tier=tier, **_vr(failed, ex), queries=ex.queries, solver_time_s=round(ex.solver_time, 2), failed=_dedup(failed), paths=npaths,
+                                path_kinds={str(k): v for k, v in kinds.items()}, wall_s=round(time.time() - t0, 1))
+                except (Unsupported, Unwind) as e:
+                    return dict(name=name, engine="mirsym", functions=[], bounds=bounds, oracle=oracle, stubs=[], tier=tier, verdict="inconclusive",
+                                reason=f"outside the encoder's subset: {e}", queries=0, solver_time_s=0, failed=[])
+            jobs.append(("c20_listing_entries_table_of_%d_rows_or_fewer" % nrows, ljob))
         obligations.extend(run_jobs(jobs))
         return _with_replay(pid, obligations, logdir)
     po = props_pool.PoolObligations(prog, en, tier, None)
